@@ -568,7 +568,7 @@ def adj_maze_set(name, tier):
         return [L(11, 11, structured(11)[0])]
     if name == "big50":
         return [L(50, 50, structured(50)[0])]
-    if name in ("big13", "big16"):
+    if name in ("big13", "big16", "big24", "big33"):
         # flat cell indices beyond 127 / 255 (narrow integer types), one structured maze and one fixed irregular bit pattern
         n = int(name[3:])
         E = len(R.lattice_edges(n, n))
@@ -627,6 +627,36 @@ def path_maze_set(name, tier):
                 sup.append(b)
             sup = sup[::4] if quick else sup
             out += [S(3, 3, b, path) for b in sup] + [S(3, 3, b, path) for b in reversed(sup)]
+        return out
+    if name in ("w22", "w33"):
+        # stored solutions that are WALKS (cells repeat: the walker backs up, passes through its own start again, or through its end
+        # before finishing) - the library accepts any valid path as a solution and has a BACKWARD step word; step sizes are defined per
+        # INDEX of the solution
+        def walks_of(r, c, b, maxlen):
+            adj = R.adjacency(R.graph_from_bits(r, c, b))
+            out = []
+
+            def ext(w):
+                if len(w) >= 3 and len(set(w)) < len(w):
+                    out.append(S(r, c, b, w))
+                if len(w) < maxlen:
+                    for nb in sorted(adj[w[-1]]):
+                        ext(w + [nb])
+
+            for s0 in R.cells(r, c):
+                ext([s0])
+            return out
+
+        if name == "w22":
+            out = []
+            for b in range(16):
+                out += walks_of(2, 2, b, 5 if quick else 6)
+            return out
+        full = (1 << 12) - 1
+        out = []
+        for b in [R.trees(3, 3)[0], R.trees(3, 3)[77], full, full ^ 1] + ([] if quick else R.trees(3, 3)[5::40]):
+            ws = walks_of(3, 3, b, 5)
+            out += [w for w in ws if w[6][0] in w[6][1:-1] or w[6][-1] in w[6][1:-1]][:: 7 if quick else 2]
         return out
     if name == "s11":
         bits, snake, short = structured(11)
@@ -882,7 +912,18 @@ def run_case(res, sweep, fn, judge, fam, spec, prog, explore_rng, ident, expect_
             if len(res.samples) < 2 and n >= 3 and len(toks) < 80:
                 res.sample(dict(sweep=sweep, tokenizer=ident, maze=spec, answers=ex.answers, tokens=" ".join(toks)))
 
-    if explore_rng:
+    if explore_rng == "script":
+        # grids far too large for "every answer with <= 1 deviation": the identity answers and three scripted policies (every choice
+        # point answers 1: reversal / all flipped; 2: first transposition / first flip; a large number folded into the arity: some rotation)
+        for script in ([], [1] * 16, [2] * 16, [1000003] * 16):
+            CH.scripted = True
+            try:
+                ex = explore.run_with(script, fn)
+            finally:
+                CH.scripted = False
+            on_exec(ex)
+        res.count("scripted_rng_executions", 4)
+    elif explore_rng:
         st = explore.explore_stateless(fn, on_exec, dev=1)
         if st["executions"] > 1:
             res.count("cases_with_rng_alternatives")
@@ -1008,6 +1049,10 @@ def plan(tier):
         T_.append(dict(sweep="adj", mazes="big11", progs=pr, rng=False))
         T_.append(dict(sweep="adj", mazes="big13", progs=pr, rng=False, coords=[0, 1]))
         T_.append(dict(sweep="adj", mazes="big16", progs=pr, rng=False, coords=[0, 8] if quick else None))
+        # more than 1000 / 2000 listed edges, with non-identity shuffle / flip answers (scripted policies)
+        T_.append(dict(sweep="adj", mazes="big24", progs=pr, rng="script", coords=[0]))
+        if not quick:
+            T_.append(dict(sweep="adj", mazes="big33", progs=pr, rng="script", coords=[0, 1]))
     for pr in chunks(nP, 24):
         T_.append(dict(sweep="path", mazes="s22q" if quick else "s22", progs=pr))
         T_.append(dict(sweep="path", mazes="s11", progs=pr))
@@ -1017,6 +1062,9 @@ def plan(tier):
         T_.append(dict(sweep="path", mazes="s33same", progs=pr, coords=[0] if quick else [0, 1, 8]))
     for pr in chunks(nP, 8):
         T_.append(dict(sweep="path", mazes="corr17", progs=pr, coords=[0, 1], **(dict(only_size="Forks") if quick else {})))
+    for pr in chunks(nP, 16):
+        T_.append(dict(sweep="path", mazes="w22", progs=pr, coords=[0] if quick else [0, 1, 8]))
+        T_.append(dict(sweep="path", mazes="w33", progs=pr, coords=[0]))
     # 2. input sweep with the pairwise-covering full tokenizers
     for pr in chunks(nF, 11):
         T_.append(dict(sweep="full", mazes="k22s", progs=pr, rng=True))
@@ -1034,7 +1082,7 @@ def plan(tier):
             T_.append(dict(sweep="adj", mazes="g33", progs=pr, rng=True, coords=[0]))
             T_.append(dict(sweep="adj", mazes="g33", progs=pr, rng=False, coords=list(range(1, len(sp.coords)))))
         for pr in chunks(nA, 48):
-            T_.append(dict(sweep="adj", mazes="big50", progs=pr, rng=False))
+            T_.append(dict(sweep="adj", mazes="big50", progs=pr, rng="script"))
         for pr in chunks(nP, 48):
             T_.append(dict(sweep="path", mazes="s50", progs=pr))
         for pr in chunks(nF, 33):
